@@ -27,6 +27,9 @@ def fixed_docs():
         # stored order and tree order of the two nodes must agree), next to attributes
         R(E("a", T("alpha"), PI("t", "one"), T("beta"), C("c"), T("gamma"), PI("u", ""), E("b", T("x"), PI("t", "two"), C("k"), a=[A("x", "1")]), T("tail"), PI("t", "three"),
             a=[A("x", "1"), A("y", "2")])),
+        # runs of nodes with EQUAL string-values (set:distinct keeps the first of each; a duplicate right after a duplicate, a value that returns)
+        R(E("a", E("b", T("x")), E("b", T("x")), E("b", T("x")), E("c", T("y")), E("b", T("x")), E("c", T("y")), E("b", T("z")), E("c", T("x")), E("b"), E("c"), E("b", T("z")),
+            a=[A("x", "x"), A("y", "y")])),
     ]
 
 
@@ -290,6 +293,20 @@ def build_cases(rng, tier):
                   bin_("+", w_, num(1)), fn("count", NSET(w_))]:
             for ctx in (1, 2, 4):
                 cases.append((1, ctx, 1, 1, e, {}))
+    # SET FUNCTIONS on runs of equal values (document 7): distinct / difference / intersection / leading / trailing / has-same-node, both libraries
+    S_ = [path([dict(DOS), ch_(t_name("b"))], abs_=True), path([dict(DOS), ch_(T_ANY)], abs_=True), path([ch_(T_ANY)]), bin_("|", path([dict(DOS), ch_(t_name("b"))], abs_=True), path([dict(DOS), ch_(t_name("c"))], abs_=True)),
+          path([dict(DOS), ch_(T_TEXT)], abs_=True), path([dict(DOS), step("attribute", T_ANY)], abs_=True), bin_("|", path([dict(DOS), ch_(T_ANY)], abs_=True), path([dict(DOS), step("attribute", T_ANY)], abs_=True)),
+          path([ch_(T_ANY, bin_(">", fn("position"), num(2)))]), path([step("following-sibling", T_ANY, abbr=False)]), path([step("preceding-sibling", T_ANY, abbr=False)])]
+    for lib in ("set", "xalan"):
+        for a_ in S_:
+            dd = xpgen.xfn(lib, "distinct", a_)
+            for e in [dd, fn("count", dd), xpgen.xfn(lib, "distinct", dd), path([step("self", t_name("b"), abbr=False)], start=dd) if False else fn("count", bin_("|", dd, a_))]:
+                for ctx in (1, 2, 4, 6, 9):
+                    cases.append((7, ctx, 1, 1, e, {}))
+        for a_ in S_[:4]:
+            for b_ in S_[2:6]:
+                for nm_ in (["difference", "intersection", "leading", "trailing"] if lib == "set" else ["difference", "intersection"]):
+                    cases.append((7, 2, 1, 1, xpgen.xfn(lib, nm_, a_, b_), {}))
     # math:constant at full precision (string form; see XPathSem!MathConstantString): every constant x precisions from 17 on
     for cn in ["PI", "E", "SQRRT2", "LN2", "LN10", "LOG2E", "SQRT1_2"]:
         for pr in [17, 18, 20, 25, 40, 52, 60, 100]:
